@@ -41,3 +41,20 @@ if os.path.exists(sj):
                 {True: 'yes', False: 'no', None: '-'}[r.get('tests_pass')],
                 r['first'].replace('|', '/')[:120]))
     print('SENSITIVITY.md: %d runs, %d caught' % (len(data), sum(1 for r in data if r['caught'])))
+
+# ---- COSTS.md from the evidence files
+ev = []
+for p in sorted(glob.glob(os.path.join(HERE, 'evidence', '*.json'))):
+    e = json.load(open(p))
+    ev.append(e)
+with open(os.path.join(HERE, 'COSTS.md'), 'w') as f:
+    f.write('# Measured cost and coverage of the last run of every check in /verif\n\n'
+            '| property | tier | seed | evaluations | distinct non-trivial | wall s | violations |\n|---|---|---|---|---|---|---|\n')
+    for e in ev:
+        f.write('| %s | %s | %s | %d | %d | %s | %s |\n' % (
+            e['property_id'], e['tier'], e['seed'], e['coverage']['evaluations'],
+            e['coverage']['distinct_nontrivial'], e['wall_s'], e.get('violations')))
+    tp = os.path.join(HERE, 'THOROUGH_RUNS.md')
+    if os.path.exists(tp):
+        f.write('\nThorough-tier runs: see THOROUGH_RUNS.md\n')
+print('COSTS.md written')
